@@ -1,4 +1,4 @@
-import Cssv.Product
+import Cssv.Quotient
 def strs (s : String) : List String := if s = "" then [] else s.splitOn ","
 def parseTerms (s : String) : Terms :=
   if s = "" then [] else (s.splitOn "/").map (fun e =>
@@ -33,6 +33,13 @@ partial def loop (h : IO.FS.Stream) : IO Unit := do
     | "complement" =>
       let pt := parseTerms (field fs "PT")
       IO.println (match complementTerms parent cs (field fs "IDX").toNat! (fun _ => pt) n with | some t => showTerms t | none => "assert")
+    | "quotient" =>
+      let tbl : List (Nat × Terms) := (if field fs "PT" = "" then [] else (field fs "PT").splitOn "+").map (fun e =>
+        match e.splitOn "@" with
+        | [n, t] => (n.toNat!, parseTerms t)
+        | _ => (0, []))
+      let pt := fun n => ((tbl.find? (·.1 == n)).map (·.2)).getD []
+      IO.println (match quotientTerms parent cs (field fs "IDX").toNat! pt n with | some t => showTerms t | none => "assert")
     | _ => IO.println "bad"
     loop h
 def main : IO Unit := do loop (← IO.getStdin)
